@@ -28,6 +28,10 @@ func (e *Engine) verifyFunc(fn *ssa.Function, fs *FuncSpec) (c *vctx) {
 		return c
 	}
 	a := e.newAct(fn, nil)
+	if a.spec == nil {
+		// package sweep: the function has no contract of its own; the synthetic spec carries the sweep kinds
+		a.spec = fs
+	}
 	c.topAct = a
 	log := c.log
 	st := &State{locals: map[any]Val{}, heap: map[string]Term{}, epoch: "0"}
